@@ -1,9 +1,92 @@
 import TaurexModel.Proto
+import TaurexModel.Posterior
 
 namespace Taurex.Ops.C09
-open Taurex.Proto
+open Taurex.Proto Taurex.Posterior
 
-/-- operations of the C09 model served by `driver_c09` (filled in by the C09 check) -/
-def ops : List Op := []
+def fSummary (s : Summary Float) : String :=
+  s!"{fF s.value} {fF s.sigmaM} {fF s.sigmaP} {fF s.mean}"
+
+/-- `c09.quantile x w qs` → list -/
+def quantileOp (args : List String) : Option String :=
+  run (do
+    let x ← listOf flt
+    let w ← listOf flt
+    let qs ← listOf flt
+    if x.length ≠ w.length ∨ x.length = 0 then failure else pure ()
+    pure (fList fF (qs.map (quantileCorner x w)))) args
+
+/-- `c09.summary x w` → value sigma_m sigma_p mean -/
+def summaryOp (args : List String) : Option String :=
+  run (do
+    let x ← listOf flt
+    let w ← listOf flt
+    if x.length ≠ w.length ∨ x.length = 0 then failure else pure ()
+    pure (fSummary (summary x w))) args
+
+/-- `c09.argmax w` → index -/
+def argmaxOp (args : List String) : Option String :=
+  run (do
+    let w ← listOf flt
+    if w.length = 0 then failure else pure ()
+    pure (fN (argmaxFirst w))) args
+
+/-- `c09.wmean x w` -/
+def wmeanOp (args : List String) : Option String :=
+  run (do
+    let x ← listOf flt
+    let w ← listOf flt
+    if x.length ≠ w.length then failure else pure ()
+    pure (fF (wmean x w))) args
+
+/-- `c09.interp xs xp fp` → list (external `np.interp`) -/
+def interpOp (args : List String) : Option String :=
+  run (do
+    let xs ← listOf flt
+    let xp ← listOf flt
+    let fp ← listOf flt
+    if xp.length ≠ fp.length ∨ xp.length = 0 then failure else pure ()
+    pure (fList fF (xs.map (fun x => npInterp x xp fp)))) args
+
+/-- `c09.sort x w` → sorted values, permuted weights (external `np.argsort`, stable) -/
+def sortOp (args : List String) : Option String :=
+  run (do
+    let x ← listOf flt
+    let w ← listOf flt
+    if x.length ≠ w.length then failure else pure ()
+    let s := sortPairs (List.zip x w)
+    pure (fList fF (s.map Prod.fst) ++ " " ++ fList fF (s.map Prod.snd))) args
+
+/-- `c09.cdf w` → normalised running sums -/
+def cdfOp (args : List String) : Option String :=
+  run (do
+    let w ← listOf flt
+    pure (fList fF (cdfOf w))) args
+
+/-- `c09.store ndim samples weights` → map index, MAP vector, median vector, one summary per parameter,
+    stored samples, stored weights -/
+def storeOp (args : List String) : Option String :=
+  run (do
+    let ndim ← nat
+    let samples ← listOf (listOf flt)
+    let weights ← listOf flt
+    if samples.length ≠ weights.length ∨ samples.length = 0 then failure else pure ()
+    if samples.any (fun r => r.length ≠ ndim) then failure else pure ()
+    let s := storeOutput ndim samples weights
+    pure (fN s.mapIndex ++ " " ++ fList fF (mapVector s) ++ " " ++ fList fF (medianVector s) ++ " " ++
+          fList fSummary s.params ++ " " ++ fList (fList fF) s.tracedata ++ " " ++ fList fF s.weights)) args
+
+/-- `c09.scatter dst src a` → `a` after `a[dst] = a[src]` -/
+def scatterOp (args : List String) : Option String :=
+  run (do
+    let dst ← listOf nat
+    let src ← listOf nat
+    let a ← listOf flt
+    pure (fList fF (scatter dst src a))) args
+
+def ops : List Op :=
+  [("c09.quantile", quantileOp), ("c09.summary", summaryOp), ("c09.argmax", argmaxOp), ("c09.wmean", wmeanOp),
+   ("c09.interp", interpOp), ("c09.sort", sortOp), ("c09.cdf", cdfOp), ("c09.store", storeOp),
+   ("c09.scatter", scatterOp)]
 
 end Taurex.Ops.C09
